@@ -1,5 +1,6 @@
 (* C08 — delete, empty and ephemeral semantics.  Property theorems only. *)
 From Coq Require Import List NArith ZArith.
+From NSQV Require proofs.CoreUnique proofs.CoreDiscard.
 From NSQV Require Import model.Core proofs.CoreBase proofs.CoreLife proofs.CoreOwes proofs.CoreStats.
 Import ListNotations.
 Open Scope N_scope.
@@ -48,6 +49,23 @@ Theorem C08_ephemeral_not_persisted : forall s,
   Forall (fun tp => t_eph tp = false /\ Forall (fun ch => c_eph ch = false) (t_chans tp)) (s_topics (restart s)).
 Proof. exact restart_no_ephemeral. Qed.
 Print Assumptions C08_ephemeral_not_persisted.
+
+(* no discarded message is delivered afterwards: in every reachable state (message ids are
+   never reused) what an explicit empty discarded is neither queued, nor in flight, nor
+   deferred on that channel, nor waiting in the topic; and a delivery can only take a
+   message from the queue *)
+Theorem C08_discarded_never_held_again : forall cfg ops tp ch x,
+  CoreUnique.fresh_history [] ops = true ->
+  In tp (s_topics (run cfg init ops)) -> In ch (t_chans tp) -> In x (c_emptied ch) ->
+  ~ In x (map m_id (c_queue ch)) /\ ~ In x (map (fun e => m_id (i_msg e)) (c_ifl ch)) /\
+  ~ In x (map (fun e => m_id (d_msg e)) (c_dfr ch)) /\ ~ In x (map m_id (t_queue tp)).
+Proof. exact CoreDiscard.discarded_never_held_again. Qed.
+Print Assumptions C08_discarded_never_held_again.
+
+Theorem C08_discarded_not_deliverable : forall s kl ch x tp,
+  CoreUnique.UniqueTopic tp -> In ch (t_chans tp) -> In x (c_emptied ch) -> deliverable s kl ch x = false.
+Proof. exact CoreDiscard.discarded_not_deliverable. Qed.
+Print Assumptions C08_discarded_not_deliverable.
 
 (* counters stay right through every empty/delete: the conservation law of C13 is an
    invariant of every step, these included *)
